@@ -79,11 +79,6 @@ WawRenamed(prog, fin) ==
                                        /\ \A m \in (i + 1) .. (j - 1) : r \notin Reads(prog, fin, m)
     /\ (IsLoadAt(prog, fin, i) \/ j - i <= 10)
 
-(* F09c (MVP-6.0 .. 8, >= 2 units): instructions that follow an executed `ret` in the  *)
-(* text are already in the pipeline and execute on other units before the run stops.   *)
-(* Masks: runs ending in ret where the ret is not the last instruction of the text.    *)
-CodeAfterRet(prog, fin) == fin.status = "ret" /\ fin.ev[N(fin)].i + 1 < Len(prog)
-
 (* F10b (MVP-6.x, >= 2 units): a store to a line whose fetch (by an older load) is     *)
 (* still in flight misses the cache and bypasses it; the fetched line then holds the   *)
 (* old bytes.  Masks: a load that first touches a line followed within 310 executed    *)
@@ -157,7 +152,6 @@ Tags(prog, fin) ==
   \cup (IF FlushDropsOlder(prog, fin) THEN {"flush_drops_older"} ELSE {})
   \cup (IF StoreMissThenLoad(prog, fin) THEN {"store_miss_then_load"} ELSE {})
   \cup (IF WawRenamed(prog, fin) THEN {"waw_renamed"} ELSE {})
-  \cup (IF CodeAfterRet(prog, fin) THEN {"code_after_ret"} ELSE {})
   \cup (IF LoadMissThenStore(prog, fin) THEN {"load_miss_then_store"} ELSE {})
   \cup (IF MemDepInflight(prog, fin) THEN {"mem_dep_inflight"} ELSE {})
   \cup (IF WarRenamed(prog, fin) THEN {"war_renamed"} ELSE {})
